@@ -14,6 +14,7 @@ From Cao Require Import CompilerProofs CompilerWf CompilerOk CompilerResolve Res
   CompilerCalls C15Link.
 From Cao Require Vm VmProofs VmNativeProofs VmUpvalueProofs C04VmProofs C01SimVm VmCallProofs.
 Import ListNotations.
+Local Open Scope N_scope.
 
 Arguments N.add : simpl never.
 Arguments N.sub : simpl never.
@@ -113,4 +114,213 @@ Proof.
   intros d args m s Hl Hnd Hm Hne Hdot. unfold read_var_card.
   rewrite (split_once_c_dotless _ _ Hdot). unfold bind. rewrite (resolve_param d args m s Hl Hnd Hm Hne).
   unfold read_local. destruct (push_instr _ s) as [[] s1| | |] eqn:E; try reflexivity.
+Qed.
+
+(* ------------------------------------------------------------------ *)
+(* C. the call site of a compiled module                               *)
+(* ------------------------------------------------------------------ *)
+Lemma assoc_nm_find {V} k (l : list (N * V)) : Vm.assoc k l = nm_find k l.
+Proof. induction l as [|[k' v] r IH]; cbn; [reflexivity|]. rewrite IH. reflexivity. Qed.
+
+Lemma Forall2_nth_r {A B} (R : A -> B -> Prop) : forall xs ys k y,
+  Forall2 R xs ys -> nth_error ys k = Some y -> exists x, nth_error xs k = Some x /\ R x y.
+Proof.
+  intros xs ys k y H. revert k. induction H as [|x0 y0 xs ys H0 _ IH]; intros k Hk; [destruct k; discriminate|].
+  destruct k as [|k]; cbn [nth_error] in *.
+  - injection Hk as <-. exists x0. auto.
+  - apply IH. exact Hk.
+Qed.
+
+Lemma nth_error_app_len {A} (a : list A) x b : nth_error (a ++ x :: b) (length a) = Some x.
+Proof. rewrite nth_error_app2 by lia. rewrite Nat.sub_diag. reflexivity. Qed.
+
+(* the position spec_resolve's answer has in the tree is the index of its site in tree_functions *)
+Lemma site_target_site root st name pos arn :
+  site_target root st name = Some (pos, arn) ->
+  exists fid fn imps,
+    spec_resolve root (fs_path st) (fs_imports st) name = SFound fid /\
+    function_at root fid = Some fn /\ arn = length (f_args fn) /\
+    nth_error (tree_functions root []) pos =
+      Some {| fs_path := fst fid; fs_name := snd fid; fs_fn := fn; fs_imports := imps |}.
+Proof.
+  unfold site_target. intros H.
+  destruct (spec_resolve root (fs_path st) (fs_imports st) name) as [fid| |] eqn:Es; try discriminate.
+  destruct (fn_position root (fst fid) (snd fid) 0) as [p|] eqn:Ep; [|discriminate].
+  destruct (function_at root fid) as [fn|] eqn:Ef; [|discriminate].
+  injection H as -> <-. exists fid, fn.
+  unfold function_at in Ef. destruct (find_module root (fst fid)) as [m'|] eqn:Em; [|discriminate].
+  destruct (find (fun nf => seq_eqb (fst nf) (snd fid)) (m_functions m')) as [[n0 fn0]|] eqn:Efi; [|discriminate].
+  injection Ef as ->.
+  assert (Hh : has_function m' (snd fid) = true).
+  { unfold has_function. apply existsb_exists. apply find_some in Efi. exists (n0, fn). exact Efi. }
+  destruct (fn_position_spec (snd fid) (fst fid) root [] 0 m' Em Hh) as (pos' & fn' & H1 & H2 & H3).
+  rewrite Ep in H1. injection H1 as ->. rewrite Efi in H2. injection H2 as -> <-.
+  exists (m_imports m'). split; [reflexivity|]. split; [unfold function_at; rewrite Em, Efi; reflexivity|].
+  split; [reflexivity|]. cbn [Nat.add app] in H3. exact H3.
+Qed.
+
+Section Site.
+Variable F : Vm.fops.
+Variable bld : Vm.build.
+Variable reenter : N -> Vm.state -> Vm.rres.
+
+Theorem call_executes_designated_body : forall M o B,
+  compile M o = COk B ->
+  module_names_dotfree (with_std std_module M) = true ->
+  let root := with_std std_module M in
+  let P := to_vm B in
+  exists is mi,
+    p_bytecode B = encode is /\ main_index (m_functions M) 0 = Some mi /\
+    forall a b h ar, is = a ++ IFunctionPointer h ar :: ICallFunction :: b ->
+      let ip := bytes a in
+      exists st name pos arn,
+        (* (i) the pair is the compilation of the reference to [name] made at site [st] (program order) *)
+        nth_error (flat_map site_items (swap0 (tree_functions root []) mi)) (length (filter is_call_instr a))
+          = Some (st, CPtr name) /\
+        site_target root st name = Some (pos, arn) /\
+        h = handle_from_u64 (N.of_nat pos) /\ ar = N.of_nat arn mod two32 /\
+        (* (ii) the two dispatches *)
+        (forall s top rest,
+           VmProofs.stack_ok s -> (S (length (VmProofs.stack_of s)) < VmUpvalueProofs.cap s)%nat ->
+           Vm.st_calls s = top :: rest ->
+           let n := length (VmProofs.stack_of s) in
+           let fa := N.of_nat (length (Vm.st_heap s)) in
+           let s1 := VmCallProofs.pushed (Vm.set_heap s (Vm.st_heap s ++ [Vm.OFun h ar])) (Vm.VObj fa) in
+           let s2 := VmCallProofs.popped s1 n in
+           Vm.step F bld P reenter ip s = Vm.SNext (ip + 9) s1 /\
+           Vm.step F bld P reenter (ip + 9) s1 = VmCallProofs.call_result P (ip + 9) s2 n h ar None top rest /\
+           VmProofs.stack_ok s2 /\ VmProofs.stack_of s2 = VmProofs.stack_of s) /\
+        (* (iii) for every target but `main`: labels[h] is the first byte of the code of the designated function *)
+        (pos <> mi -> label_keys_distinct_module M (o_recursion_limit o) = true ->
+         exists fid tgt f before body rest',
+           spec_resolve root (fs_path st) (fs_imports st) name = SFound fid /\
+           nth_error (tree_functions root []) pos = Some tgt /\
+           fs_path tgt = fst fid /\ fs_name tgt = snd fid /\ function_at root fid = Some (fs_fn tgt) /\
+           ir_of (N.of_nat pos) tgt f /\
+           p_bytecode B = encode before ++ encode body ++ encode rest' /\
+           (exists c1 c2, compile_other f c1 = ROk tt c2 /\ rev (cs_code c1) = before /\
+                          rev (cs_code c2) = before ++ body) /\
+           Vm.assoc h (Vm.p_labels P) = Some (N.of_nat (length (encode before))) /\
+           forall s top rest,
+             VmProofs.stack_ok s -> (S (length (VmProofs.stack_of s)) < VmUpvalueProofs.cap s)%nat ->
+             Vm.st_calls s = top :: rest ->
+             (ar <= N.of_nat (length (VmProofs.stack_of s)))%N -> (S (length rest) < Vm.call_stack_size)%nat ->
+             let n := length (VmProofs.stack_of s) in
+             let fa := N.of_nat (length (Vm.st_heap s)) in
+             let s1 := VmCallProofs.pushed (Vm.set_heap s (Vm.st_heap s ++ [Vm.OFun h ar])) (Vm.VObj fa) in
+             Vm.step F bld P reenter (ip + 9) s1 =
+               Vm.SNext (N.of_nat (length (encode before)))
+                 (Vm.set_calls (VmCallProofs.popped s1 n)
+                    (VmCallProofs.callee_frame (ip + 9) n ar None :: VmCallProofs.caller_frame (ip + 9) top :: rest))).
+Proof.
+  intros M o B Hc Hd root P.
+  destruct (compile_calls M o B Hc Hd) as (is & mi & Henc & Hmi & HF2).
+  exists is, mi. split; [exact Henc|]. split; [exact Hmi|].
+  intros a b h ar His ip.
+  assert (Hk : nth_error (filter is_call_instr is) (length (filter is_call_instr a)) = Some (IFunctionPointer h ar)).
+  { rewrite His, filter_app. cbn [filter is_call_instr]. apply nth_error_app_len. }
+  destruct (Forall2_nth_r _ _ _ _ _ HF2 Hk) as ([st it] & Hx & Hok).
+  unfold site_item_ok in Hok. cbn [fst snd] in Hok. destruct it as [name|]; [|discriminate Hok].
+  destruct Hok as (pos & arn & Htgt & Ei). injection Ei as -> ->.
+  exists st, name, pos, arn. split; [exact Hx|]. split; [exact Htgt|]. split; [reflexivity|]. split; [reflexivity|].
+  (* where the two instructions lie *)
+  assert (Hc1 : C01SimVm.code_at P ip (IFunctionPointer (handle_from_u64 (N.of_nat pos)) (N.of_nat arn mod two32))).
+  { apply (C01SimVm.code_at_encode P a _ (ICallFunction :: b)). unfold P. cbn [to_vm Vm.p_code]. rewrite Henc, His. reflexivity. }
+  assert (Hc2 : C01SimVm.code_at P (ip + 9) ICallFunction).
+  { replace (ip + 9) with (bytes (a ++ [IFunctionPointer (handle_from_u64 (N.of_nat pos)) (N.of_nat arn mod two32)]))
+      by (rewrite bytes_app; reflexivity).
+    apply (C01SimVm.code_at_encode P _ _ b). unfold P. cbn [to_vm Vm.p_code]. rewrite Henc, His, <- app_assoc. reflexivity. }
+  assert (Hh : handle_from_u64 (N.of_nat pos) < 4294967296) by apply handle_from_u64_lt.
+  assert (Har : N.of_nat arn mod two32 < 4294967296) by (apply N.mod_lt; discriminate).
+  split.
+  { intros s top rest Hok Hroom Hcs n fa s1 s2.
+    destruct (VmCallProofs.vm_static_call F bld P reenter ip s _ _ top rest Hc1 Hc2 Hh Har Hok Hroom Hcs)
+      as (E1 & E2 & Hok2 & Hst2 & _).
+    split; [exact E1|]. split; [exact E2|]. split; [exact Hok2 | exact Hst2]. }
+  intros Hne Hdist.
+  destruct (site_target_site root st name pos arn Htgt) as (fid & fn & imps & Es & Ef & -> & Hn).
+  assert (Hm : main_index (m_functions M) 0 <> Some pos) by (rewrite Hmi; intros E; injection E as ->; contradiction).
+  destruct (compile_label_of_position M o B pos _ Hc Hdist Hn Hm) as (f & before & body & rest' & Hir & Hb & Hlab & Hco).
+  exists fid, {| fs_path := fst fid; fs_name := snd fid; fs_fn := fn; fs_imports := imps |}, f, before, body, rest'.
+  split; [exact Es|]. split; [exact Hn|]. cbn [fs_path fs_name fs_fn].
+  split; [reflexivity|]. split; [reflexivity|]. split; [exact Ef|]. split; [exact Hir|]. split; [exact Hb|].
+  split; [exact Hco|].
+  assert (Hl : Vm.assoc (handle_from_u64 (N.of_nat pos)) (Vm.p_labels P) = Some (N.of_nat (length (encode before)))).
+  { unfold P. cbn [to_vm Vm.p_labels]. rewrite assoc_nm_find. exact Hlab. }
+  split; [exact Hl|].
+  intros s top rest Hok Hroom Hcs Hargs Hdepth.
+  destruct (VmCallProofs.vm_static_call F bld P reenter ip s _ _ top rest Hc1 Hc2 Hh Har Hok Hroom Hcs)
+    as (_ & E2 & _).
+  rewrite E2. unfold VmCallProofs.call_result.
+  destruct (N.ltb_spec (N.of_nat (length (VmProofs.stack_of s))) (N.of_nat (length (f_args fn)) mod two32)); [lia|].
+  destruct (Nat.leb_spec Vm.call_stack_size (S (length rest))); [lia|].
+  rewrite Hl. reflexivity.
+Qed.
+
+End Site.
+
+(* ------------------------------------------------------------------ *)
+(* D. declared parameter m <-> argument number k - 1 - m               *)
+(* ------------------------------------------------------------------ *)
+(* Compiler side: process_function f starts with add_locals (rev (fi_args f)); when the innermost locals list is
+   empty at that point (it is [[]] in init_state and every function's scope_end pops what the function declared),
+   declared parameter m of n (names pairwise distinct) becomes local n - 1 - m: resolve_var answers VLocal (n-1-m)
+   and a ReadVar of the name is compiled to ReadLocalVar (n-1-m).
+   VM side: a call of a function object of arity n with the k >= n values vals[0..k-1] on top of the stack (pushed in
+   this order: a Call card compiles its arguments first to last) makes ReadLocalVar (n-1-m), executed anywhere in the
+   callee's frame while the stack still begins with low ++ vals, push vals[k-1-m]: the LAST supplied value is the
+   first declared parameter. *)
+Theorem param_binding : forall (f : function_ir) c0 c1 m,
+  cs_locals c0 <> [] -> hd [] (cs_locals c0) = [] -> NoDup (fi_args f) ->
+  add_locals (rev (fi_args f)) c0 = ROk tt c1 -> (m < length (fi_args f))%nat ->
+  let n := length (fi_args f) in
+  let p := nth m (fi_args f) [] in
+  let j := N.of_nat (n - 1 - m) in
+  N.of_nat n mod two32 = N.of_nat n /\
+  resolve_var p c1 = ROk (VLocal j) c1 /\
+  (~ In c_dot p -> read_var_card p c1 = push_instr (IReadLocalVar j) c1) /\
+  forall F bld P reenter ip0 s low vals a (is_clo : bool) h ups top rest pos,
+    C04VmProofs.opcode_at P ip0 = 11 -> VmProofs.stack_ok s ->
+    VmProofs.stack_of s = (low ++ vals) ++ [Vm.VObj a] ->
+    Vm.hget (Vm.st_heap s) a = Some (VmNativeProofs.callee_obj is_clo h (N.of_nat n) ups) ->
+    Vm.st_calls s = top :: rest ->
+    (n <= length vals)%nat -> (S (length rest) < Vm.call_stack_size)%nat -> Vm.assoc h (Vm.p_labels P) = Some pos ->
+    let fr := VmCallProofs.callee_frame ip0 (length (low ++ vals)) (N.of_nat n) (if is_clo then Some a else None) in
+    Vm.step F bld P reenter ip0 s =
+      Vm.SNext pos (Vm.set_calls (VmCallProofs.popped s (length (low ++ vals)))
+                      (fr :: VmCallProofs.caller_frame ip0 top :: rest)) /\
+    forall x cs tmp ip,
+      Vm.st_calls x = fr :: cs -> VmProofs.stack_ok x -> VmProofs.stack_of x = low ++ vals ++ tmp ->
+      (S (length (VmProofs.stack_of x)) < VmUpvalueProofs.cap x)%nat ->
+      C01SimVm.code_at P ip (IReadLocalVar j) ->
+      Vm.step F bld P reenter ip x =
+        Vm.SNext (ip + 5) (VmCallProofs.pushed x (nth (length vals - 1 - m) vals Vm.VNil)).
+Proof.
+  intros f c0 c1 m Hne Hemp Hnd Hadd Hm n p j.
+  destruct (add_locals_spec _ _ _ Hne Hadd) as (Hl & _ & _ & _ & _ & Hnames & Hcap).
+  rewrite Hemp in Hl. cbn [app] in Hl.
+  assert (Hl1 : hd [] (cs_locals c1) = map (mk_local (scope_depth c0)) (rev (fi_args f))) by (rewrite Hl; reflexivity).
+  assert (Hpne : p <> []).
+  { rewrite Forall_forall in Hnames. apply Hnames. apply -> in_rev. apply nth_In. exact Hm. }
+  assert (Hn255 : (n <= 255)%nat).
+  { unfold n. rewrite Hemp, rev_length in Hcap. cbn [length Nat.add] in Hcap. unfold locals_cap in Hcap.
+    apply Hcap. intros E. apply (f_equal (@length _)) in E. rewrite rev_length in E. cbn in E. lia. }
+  split; [apply N.mod_small; unfold two32; lia|].
+  split; [exact (resolve_param _ _ _ _ Hl1 Hnd Hm Hpne)|].
+  split; [intros Hdot; exact (read_var_param _ _ _ _ Hl1 Hnd Hm Hpne Hdot)|].
+  intros F bld P reenter ip0 s low vals a is_clo h ups top rest pos Hop Hok Hst Ha Hcs Hk Hdepth Hlab fr.
+  assert (Hk' : (N.to_nat (N.of_nat n) <= length vals)%nat) by lia.
+  destruct (VmCallProofs.vm_params_are_locals F bld P reenter ip0 s low vals a is_clo h (N.of_nat n) ups top rest pos
+              Hop Hok Hst Ha Hcs Hk' Hdepth Hlab) as (E & _ & _ & Hloc).
+  split; [exact E|].
+  intros x cs tmp ip Hcx Hokx Hstx Hroom Hcode.
+  assert (Hj : (n - 1 - m < N.to_nat (N.of_nat n))%nat) by lia.
+  assert (Hop' : C04VmProofs.opcode_at P ip = 20) by exact (C01SimVm.code_at_opcode Hcode).
+  assert (Ej : Vm.op_u32 P (ip + 1) = Some (N.of_nat (n - 1 - m))).
+  { apply (C01SimVm.code_at_operand1 (w := 4) Hcode eq_refl eq_refl). apply C01SimVm.fits4_lt. lia. }
+  destruct (Hloc x cs tmp (n - 1 - m)%nat ip Hcx Hokx Hj Ej) as (Hr & _).
+  destruct (Hr Hop' Hstx Hroom) as (E1 & _).
+  rewrite Nat2N.id in E1.
+  replace (length vals - n + (n - 1 - m))%nat with (length vals - 1 - m)%nat in E1 by lia.
+  replace (ip + 5) with (ip + 1 + 4) by lia. exact E1.
 Qed.
